@@ -54,6 +54,7 @@ type walkResult struct {
 	steps    []walkStep
 	crossed  int
 	maxLiq   *rat
+	short    *rat // infeasible: what was left unfilled when the initialised ticks ran out
 }
 
 // walk computes the ideal swap. zeroForOne: token0 in, price falls.
@@ -86,10 +87,12 @@ func walk(zeroForOne, exactIn bool, amount *rat, f *rat, s0 *rat, tick0 int64, l
 			// ran out of initialised ticks. A remainder below the rounding scale is not a
 			// feasibility verdict: the implementation rounds each bucket in the pool's favour
 			// and may legitimately stop exactly on the last tick.
-			slack := radd(rint(2), rquo(amount, rnew().SetFrac64(100000000000000000, 1)))
+			// (every bucket's input is rounded up to a whole unit: up to one unit per bucket walked)
+			slack := radd(rint(2+int64(len(res.steps))), rquo(amount, rnew().SetFrac64(100000000000000000, 1)))
 			if R.Cmp(slack) <= 0 {
 				break
 			}
+			res.short = rnew().Set(R)
 			return res // infeasible
 		}
 		nt := order[idx]
